@@ -116,7 +116,9 @@ theorem inherit_keepR (s : St) (n : String) : KeepR (AR s.all) n s.tags (inherit
 
 /-! ## delTag -/
 
-theorem dtApply_none (s : St) (name : String) (t : Tag) : sget (dtApply s name t).tags name = none := by
+-- CHANGED (dropped): `dtApply` takes the tagging choice
+theorem dtApply_none (s : St) (name : String) (t : Tag) (choice : Option String) :
+    sget (dtApply s name t choice).tags name = none := by
   unfold dtApply
   exact (foldl_ke name _ (fun s r => delRefBy_ke name s r name) _ _).2 (by simp [sget_sdel])
 
@@ -132,7 +134,7 @@ theorem delTag_ok (s : St) (name : String) (st : Started)
     · intro h; cases h
     · rename_i hr
       intro _
-      refine ⟨t, ht, ?_, dtApply_none _ _ _⟩
+      refine ⟨t, ht, ?_, dtApply_none _ _ _ _⟩
       simpa using hr
 
 /-! ## updName -/
